@@ -164,27 +164,42 @@ PROPS = {
     "C02": {
         "run": c02, "level": "translation_validation",
         "title": "Regex operators denote their documented languages",
-        "technique": "translation validation (extracted LTS vs reference automaton) on a "
+        "technique": "structural induction on the regex over templates extracted from add_re's MIR "
+                     "(def-use analysis + automata equivalence of per-operator templates, R-THOMPSON/R-PRIM); "
+                     "translation validation (extracted LTS vs reference automaton) on a "
                      "bounded-exhaustive family of operator trees; dependency rule on the subset construction",
         "explanation": "Every operator tree up to the enumerated size over atoms 'a' 'b' ['a'-'c'] "
                        "['b'-'d'] _ \"ab\" $v (family ops), the class algebra family and the "
                        "precedence family are bisimilar to their reference automata; equal-language "
                        "pairs are separate witnesses related to the same reference. R-FLOW: DFA "
                        "transition targets depend on char, covering range and `_` NFA targets; "
-                       "R-EXH: all four kinds consulted.",
-        "trusted_base": ["lexlint/refsem.py"],
+                       "R-EXH: all four kinds consulted. For all definitions: R-THOMPSON extracts, per "
+                       "variant of ast::Regex, the builder calls of add_re with the origin of each "
+                       "argument; each operator's template has exactly the documented language with "
+                       "recursive calls read as edges, every fragment is closed (no edge into "
+                       "`current`, none out of `cont`), hence by induction the NFA fragment spells "
+                       "L(re) for regexes of any depth; the templates composed on all 4424 trees of "
+                       "<= 6 nodes agree with the textbook construction; R-PRIM: NFA builders and "
+                       "accessors agree on the State field they use.",
+        "trusted_base": ["lexlint/refsem.py", "the textbook Thompson fragments in lexlint/rules_thompson.py"],
     },
     "C03": {
         "run": c03, "level": "translation_validation",
         "title": "Rule sets isolated; entered only by switch or failure reset",
-        "technique": "translation validation per rule set entry + typestate on __state/__initial_state writers",
+        "technique": "translation validation per rule set entry + typestate on __state/__initial_state writers "
+                     "+ sibling agreement of the three state-index rewritings (R-OFFSET, R-SHIFT, R-INLINE)",
         "explanation": "P7: switch maps each rule-set variant to one constant stored in __state and "
                        "__initial_state; for every witness (family rulesets: 1-4 rule sets, all "
                        "orders, empty sets, dropped and inlined states before later entries) the "
                        "node of that constant is bisimilar to the reference automaton of that rule "
                        "set alone. On all expansions: __state/__initial_state are written only by "
                        "constructors, switch, transitions, the post-action return to "
-                       "__initial_state and failure resets (R-WHO, P5, P6, P9).",
+                       "__initial_state and failure resets (R-WHO, P5, P6, P9). For all definitions: "
+                       "add_dfa shifts every successor kind and the predecessor sets by the same "
+                       "offset and returns it as the entry (R-OFFSET); simplify renumbers entries "
+                       "and transition targets from the same list of removed states and never "
+                       "removes an initial state (R-SHIFT); all five inlining decisions in codegen "
+                       "use the same condition (R-INLINE).",
         "trusted_base": RUNTIME_TB + ["lexlint/refsem.py"],
     },
     "C04": {
@@ -202,12 +217,15 @@ PROPS = {
     "C11": {
         "run": c11, "level": "translation_validation",
         "title": "Character-class algebra exact at every code point",
-        "technique": "translation validation: exact interval sets on extracted edges vs reference sets",
+        "technique": "translation validation: exact interval sets on extracted edges vs reference sets; "
+                     "operand/operation dispatch rule on regex_to_range_map (R-CLASS)",
         "explanation": "For every class expression of family classes (overlaps, end points, removed "
                        "range spanning several pieces / equal to a piece / touching, chained #, _, "
                        "built-ins, surrogate boundary) the interval set labelling each extracted "
                        "edge equals the reference set at every scalar value; search tables are "
-                       "sorted/disjoint/scalar (R-BSEARCH, R-DATA). NOT decided: arbitrary operation "
+                       "sorted/disjoint/scalar (R-BSEARCH, R-DATA). R-CLASS: per variant, which class "
+                       "operation is applied to which operand in which order (`#` = remove right from "
+                       "left). NOT decided: arbitrary operation "
                        "sequences on RangeMap (needs symbolic arithmetic, outside this family).",
         "trusted_base": ["lexlint/refsem.py", "lexlint/ivl.py"],
         "assumptions": ["only the RangeMap operation sequences induced by the witness expressions "
@@ -245,7 +263,8 @@ PROPS = {
         "explanation": "R-PARSE: levels call only the next level, each level consumes exactly its "
                        "operator tokens, binary levels are left-associative, the concatenation "
                        "continuation set equals the atom start set; R-SCOPE: rule sets get a clone "
-                       "of the bindings. prec witnesses: every operator pair/triple printed with "
+                       "of the bindings; R-THOMPSON: a variable is expanded in place between the "
+                       "current and continuation states. prec witnesses: every operator pair/triple printed with "
                        "minimal and with full parentheses is bisimilar to the reference of the "
                        "intended tree; compile-fail witness for a rule-set-local variable used in "
                        "another rule set, with compiling twin.",
